@@ -33,6 +33,8 @@ def gen_base(rng):
         x = X.gen_balanced(rng, with_costs=rng.random() < 0.3)
         if rng.random() < 0.3:
             x = X.add_null(rng, X.gen_balanced(rng, with_costs=False, with_virtual=False))
+        elif rng.random() < 0.2:
+            x = X.gen_cost_only(rng)        # a sub-display cost in a commodity whose precision depends on what was read before
         x.date = '2020/%02d/%02d' % (rng.randrange(1, 13), rng.randrange(1, 29))
         x.orig = i
         xs.append(x)
